@@ -158,8 +158,20 @@ uncompressed_name(const char *src_name, const size_t src_len)
 #endif
 	}
 
-	if (new_len == 0 && custom_suffix != NULL)
-		new_len = test_suffix(custom_suffix, src_name, src_len);
+	if (custom_suffix != NULL) {
+		// The custom suffix is used if no built-in suffix matched.
+		// It is also preferred if it is longer than the built-in
+		// suffix that matched (for example, --suffix=.foo.xz):
+		// the name was created by appending the whole custom suffix
+		// so the whole custom suffix has to be removed too.
+		const size_t custom_len = test_suffix(custom_suffix,
+				src_name, src_len);
+		if (custom_len != 0 && (new_len == 0
+				|| custom_len < new_len)) {
+			new_suffix = "";
+			new_len = custom_len;
+		}
+	}
 
 	if (new_len == 0) {
 		message_warning(_("%s: Filename has an unknown suffix, "
